@@ -4,7 +4,7 @@
 EXTENDS Tar, TLC, Json
 VARIABLE s
 Formats == {"ustar", "pax", "gnu"}
-Types == {"reg", "dir", "symlink", "hardlink", "char", "fifo", "symlink-gpkg", "hardlink-gpkg"}   \* -gpkg: link TARGET ends in /gpkg-1
+Types == {"reg", "dir", "symlink", "hardlink", "char", "fifo", "symlink-gpkg", "hardlink-gpkg", "vendor-X", "vendor-A", "vendor-I"}   \* -gpkg: link TARGET ends in /gpkg-1
 NameLens == {1, 60, 99, 100, 101, 155, 200, 256}
 Numerics == {"small", "maxoctal", "huge"}
 Unames == {"empty", "ascii", "nonascii"}
